@@ -27,7 +27,7 @@ const prop = "C13"
 
 func TestMain(m *testing.M) {
 	vkit.Rec(prop).SetLevel("fault_enumeration",
-		"for each of 18 flows (root rotation fresh/promote/reinitialise, authorize, fetch x {authorized, unknown, token, wrapped, re-wrapped}, token creation, node credential rotation by key ID / node ID, server-certificate generation by key ID / node ID, node-side create / handle) a clean run counts the storage operations n; then EVERY position 1..n x EVERY error kind {generic, not-found, cancelled context} is injected once (operation not performed), with and without a storage wrapper, on in-memory and store-once back ends, in a world that also holds another node's record and an unrelated token. Thorough adds rapid-generated double faults and faults on operation kinds. Oracle: error => nothing handed out; success => fully reflected in storage; consumed token never left usable; bystander records byte-identical. Non-trivial = every (flow, world, position, kind) with the position inside the call; distinct = that tuple.")
+		"for each of 18 flows (root rotation fresh/promote/reinitialise, authorize, fetch x {authorized, unknown, token, wrapped, re-wrapped}, token creation, node credential rotation by key ID / node ID, server-certificate generation by key ID / node ID, node-side create / handle) a clean run counts the storage operations n; then EVERY position 1..n x EVERY error kind {generic, not-found, cancelled context} is injected once (operation not performed), with and without a storage wrapper, on in-memory, store-once and file back ends (on the file back end a store can also fail INSIDE the operating system: the record path points at a full device), in a world that also holds another node's record and an unrelated token. Thorough adds rapid-generated double faults and faults on operation kinds. Oracle: error => nothing handed out; success => fully reflected in storage; consumed token never left usable; bystander records byte-identical. Non-trivial = every (flow, world, position, kind) with the position inside the call; distinct = that tuple.")
 	vkit.Main(m)
 }
 
@@ -458,7 +458,18 @@ type world struct {
 	wrapper bool
 }
 
-var worlds = []world{{vkit.Inmem, false}, {vkit.Inmem, true}, {vkit.StoreOnce, false}, {vkit.StoreOnce, true}}
+var worlds = []world{{vkit.Inmem, false}, {vkit.Inmem, true}, {vkit.StoreOnce, false}, {vkit.StoreOnce, true}, {vkit.File, false}, {vkit.File, true}}
+
+// deviceFull is the operating-system-level fault kind: only on the file back
+// end, only for store operations (vkit.ErrDeviceFull).
+var deviceFull = kind{"device-full", vkit.ErrDeviceFull}
+
+func kindsFor(wd world) []kind {
+	if wd.backend == vkit.File && vkit.FullDeviceAvailable() {
+		return append(append([]kind(nil), kinds...), deviceFull)
+	}
+	return kinds
+}
 
 type faultPlan struct {
 	positions map[int]kind
@@ -480,7 +491,12 @@ func execute(f flow, wd world, plan faultPlan) (n int, key, what string, ops []s
 	c := &cx{w: w}
 	var recd *vkit.RecStorage = w.Rec
 	if f.nodeSide {
-		inner, _ := vkit.NewBackend(vkit.Inmem)
+		nb := vkit.Inmem
+		if wd.backend == vkit.File {
+			nb = vkit.File
+		}
+		inner, cleanup := vkit.NewBackend(nb)
+		defer cleanup()
 		c.nodeSt = vkit.NewRecStorage(inner)
 		recd = c.nodeSt
 	}
@@ -490,9 +506,21 @@ func execute(f flow, wd world, plan faultPlan) (n int, key, what string, ops []s
 	recd.Reset()
 	recd.Fault = func(i int, op vkit.Op) error {
 		if k, ok := plan.positions[i]; ok {
+			if k.err == vkit.ErrDeviceFull {
+				if op.Kind != "store" || wd.backend != vkit.File {
+					return nil
+				}
+				return k.err
+			}
 			return &vkit.InjectedError{Inner: k.err}
 		}
 		if plan.byKind != "" && op.Kind == plan.byKind {
+			if plan.kindErr.err == vkit.ErrDeviceFull {
+				if op.Kind != "store" || wd.backend != vkit.File {
+					return nil
+				}
+				return plan.kindErr.err
+			}
 			return &vkit.InjectedError{Inner: plan.kindErr.err}
 		}
 		return nil
@@ -591,6 +619,7 @@ func TestEnum_SingleFaults(t *testing.T) {
 				continue
 			}
 			n, key, what, ops := execute(f, wd, faultPlan{})
+			cleanOps := ops
 			fc := faultCase{Flow: f.name, Backend: wd.backend.String(), Wrapper: wd.wrapper, Ops: ops}
 			rec.Case("clean/"+f.name, fmt.Sprint(f.name, wd), true, func() any { return fc })
 			if key != "" {
@@ -606,7 +635,10 @@ func TestEnum_SingleFaults(t *testing.T) {
 			rec.Gauge("storage_ops_"+f.name+"_"+wd.backend.String()+fmt.Sprintf("_wrapper=%v", wd.wrapper), int64(n))
 			// an outage: EVERY operation of one kind fails, with each error kind
 			for _, opk := range []string{"store", "load", "remove"} {
-				for _, k := range kinds {
+				for _, k := range kindsFor(wd) {
+					if k.err == vkit.ErrDeviceFull && opk != "store" {
+						continue
+					}
 					_, key, what, ops := execute(f, wd, faultPlan{byKind: opk, kindErr: k})
 					fc := faultCase{Flow: f.name, Backend: wd.backend.String(), Wrapper: wd.wrapper, Kind: k.name + " on every " + opk, Ops: ops}
 					rec.Case("outage/"+f.name+"/"+k.name, fmt.Sprint(f.name, wd, opk, k.name), true, func() any { return fc })
@@ -618,7 +650,10 @@ func TestEnum_SingleFaults(t *testing.T) {
 				}
 			}
 			for pos := 1; pos <= n; pos++ {
-				for _, k := range kinds {
+				for _, k := range kindsFor(wd) {
+					if k.err == vkit.ErrDeviceFull && (pos-1 >= len(cleanOps) || !strings.HasPrefix(cleanOps[pos-1], "store ")) {
+						continue // the operating system can only refuse a write
+					}
 					_, key, what, ops := execute(f, wd, faultPlan{positions: map[int]kind{pos: k}})
 					fc := faultCase{Flow: f.name, Backend: wd.backend.String(), Wrapper: wd.wrapper, Position: pos, Kind: k.name, Ops: ops}
 					rec.Case("fault/"+f.name+"/"+k.name, fmt.Sprint(f.name, wd, pos, k.name), true, func() any { return fc })
@@ -635,7 +670,7 @@ func TestEnum_SingleFaults(t *testing.T) {
 			}
 		}
 	}
-	rec.Exhaustive("every single failing storage operation position x 5 error kinds for each flow x 4 worlds", true)
+	rec.Exhaustive("every single failing storage operation position x 5 error kinds (6 on the file back end: an operating-system-level full device) for each flow x 6 worlds", true)
 }
 
 // TestProp_MultiFaults (thorough): two faults per call, or every operation of
@@ -649,14 +684,15 @@ func TestProp_MultiFaults(t *testing.T) {
 		wd := worlds[rapid.IntRange(0, len(worlds)-1).Draw(t, "world")]
 		plan := faultPlan{positions: map[int]kind{}}
 		mode := rapid.SampledFrom([]string{"two-positions", "by-kind", "position+kind"}).Draw(t, "mode")
+		ks := kindsFor(wd)
 		if mode != "by-kind" {
-			plan.positions[rapid.IntRange(1, 12).Draw(t, "p1")] = kinds[rapid.IntRange(0, len(kinds)-1).Draw(t, "k1")]
+			plan.positions[rapid.IntRange(1, 12).Draw(t, "p1")] = ks[rapid.IntRange(0, len(ks)-1).Draw(t, "k1")]
 		}
 		if mode == "two-positions" {
-			plan.positions[rapid.IntRange(1, 12).Draw(t, "p2")] = kinds[rapid.IntRange(0, len(kinds)-1).Draw(t, "k2")]
+			plan.positions[rapid.IntRange(1, 12).Draw(t, "p2")] = ks[rapid.IntRange(0, len(ks)-1).Draw(t, "k2")]
 		} else {
 			plan.byKind = rapid.SampledFrom([]string{"store", "load", "remove", "loadbynodeid"}).Draw(t, "opkind")
-			plan.kindErr = kinds[rapid.IntRange(0, len(kinds)-1).Draw(t, "kk")]
+			plan.kindErr = ks[rapid.IntRange(0, len(ks)-1).Draw(t, "kk")]
 		}
 		_, key, what, ops := execute(f, wd, plan)
 		desc := map[string]any{"flow": f.name, "backend": wd.backend.String(), "wrapper": wd.wrapper, "mode": mode, "plan": fmt.Sprint(plan.positions, plan.byKind, plan.kindErr.name), "ops": ops}
